@@ -170,6 +170,10 @@ def run_case(case):
     v0 = ref.View(r0)
     if v0.ill_posed_junctions():
         return {"records": [], "stats": {"illposed_runs": 1}, "nontrivial": False, "excluded": "ill-posed"}
+    if any(not np.all(np.isfinite(np.asarray(c["vals"], dtype=float))) for c in v0.comps):
+        # people that a start-up flush could not place (all proportions zero) are flagged with NaN by the library: such a run is
+        # outside the property's domain, and its "state" cannot be saved
+        return {"records": [], "stats": {"nonfinite_state_runs": 1}, "nontrivial": False, "excluded": "non-finite compartment (ill-posed start-up flush)"}
     tp = simcase.first_bad([p.vals for p in v0.pars.values() if not simcase._is_output_only(p)])
     if tp is not None:
         return {"records": [], "stats": {"nonfinite_parameter_runs": 1}, "nontrivial": False, "excluded": "non-finite parameter"}
